@@ -468,6 +468,13 @@ def runHist (cfg : Cfg) : List Ctx → List Step → List Result × List Ctx
     let (more, pool'') := runHist cfg pool' rest
     (res :: more, pool'')
 
+/-- a history in which the router is reconfigured between requests (`OnPanic` / `OnError` replaced or removed) -/
+def runHistCfg : List Ctx → List (Cfg × Option Nat × Req) → List Result
+  | _, [] => []
+  | pool, (cfg, pick, rq) :: rest =>
+    let (res, pool') := serve cfg pool pick rq
+    res :: runHistCfg pool' rest
+
 /-- the requests of a history, in order -/
 def Step.reqs : List Step → List Req
   | [] => []
